@@ -258,6 +258,10 @@ def main(tier, seed):
         for tag_, txt_ in (("renamed_enum", "SCHEMA renum;\nTYPE colour = ENUMERATION OF (red, green, blue);\nEND_TYPE;\nTYPE paint = colour;\nEND_TYPE;\nENTITY wall;\n  finish : paint;\nEND_ENTITY;\nEND_SCHEMA;\n"),
                            ("bounds", BOUND_SCHEMA)):
             uninit_check(tag_, txt_, ["exp2cxx", "exp2python", "exppp"])
+    # a constant and a function imported from another schema (they have no descriptor to rename)
+    det_check("imported_constant", "SCHEMA s_one;\nREFERENCE FROM s_two (limit_value, twice);\nENTITY widget;\n  w : INTEGER;\nWHERE\n  wr1 : w < limit_value;\n  wr2 : twice (w) > 0;\nEND_ENTITY;\nEND_SCHEMA;\n\n"
+              "SCHEMA s_two;\nCONSTANT\n  limit_value : INTEGER := 10;\nEND_CONSTANT;\nFUNCTION twice (x : INTEGER) : INTEGER;\n  RETURN (2 * x);\nEND_FUNCTION;\nENTITY gadget;\n  g : REAL;\nEND_ENTITY;\nEND_SCHEMA;\n",
+              ["exp2cxx", "exp2python", "exppp", "schema_scanner"])
     det_check("only_enum", "SCHEMA onlyenum;\nTYPE colour = ENUMERATION OF (red, green);\nEND_TYPE;\nENTITY wall;\n  finish : colour;\nEND_ENTITY;\nEND_SCHEMA;\n",
               ["exp2cxx", "exp2python", "exppp", "schema_scanner"])
     # text that is not ASCII inside string literals, on lines near the wrapping limit (variant b runs in a UTF-8 locale)
